@@ -132,6 +132,27 @@ PROPS = {
             "C09: estimator contents are modelled as lists of sample ids (which draws are inside), not their numeric values; that both estimators (two running-variance pairs / deque with background_split) realise exactly these contents is checked through their counts on every draw",
         ],
     },
+    "C14": {
+        "gen": [],
+        "thm_module": "NutsModel.Thm.C14",
+        "namespace": "NutsModel.C14",
+        "theorems": ["hm_run", "hashmap_roundtrip", "warmup_before_sampling", "ar_run", "arrow_roundtrip",
+                     "store_warmup_false_omits_exactly_warmup", "nd_run", "ndarray_roundtrip", "zarr_finalize_roundtrip"],
+        "harness": "C14",
+        "level": "proof",
+        "rule": ("a real chain (Diag NUTS, LowRank NUTS, Diag MCLMC; vector draws, scalar/vector/string/event statistics; divergences from "
+                 "periodic faults; 1..3 chains, a non-zero chain driven) recorded into each real backend by hand exactly as the sampler's "
+                 "chain loop does: HashMap, ndarray, Arrow with store_warmup on/off, Zarr sync with store_warmup on/off (finalised store, "
+                 "event-array sizes, root attribute sampler_settings = settings used), CSV (precision 3..11, store_warmup on/off); num_tune "
+                 "and num_draws from {0,1,2,6,7,8,11,15,20,23}; every fifth run aborted after a random prefix. Direct oracle: the finalised "
+                 "object equals the reference recording value by value (bit patterns; CSV to its printed precision). The per-variable "
+                 "recorded sequences and backend outputs are replayed by Model/Storage.lean (HashMap, Arrow, ndarray). "
+                 "distinct_nontrivial = runs with warmup and sampling draws and injected divergences."),
+        "trusted": [
+            "C14: proved for the backend state machines of Model/Storage.lean, for every record sequence: HashMap finalize = recorded warmup values ++ recorded sampling values; Arrow = one row per stored draw, null exactly where the statistic was absent, store_warmup=false drops exactly the tuning draws; ndarray slot k = value of draw k or the default; Zarr finalize = recorded values (from C15)",
+            "C14: models cover one variable of one chain with opaque cells; CSV formatting, Arrow builders, zarrs and ndarray indexing are checked by reading back real results, not modelled; 'all backends agree' follows from each agreeing with the same reference recording on identical seeds",
+        ],
+    },
     "C15": {
         "gen": [],
         "thm_module": "NutsModel.Thm.C15",
